@@ -147,6 +147,15 @@ Fixpoint is_prefix (k t : text) : bool :=
 Fixpoint substring (k t : text) : bool :=
   is_prefix k t || match t with [] => false | _ :: t' => substring k t' end.
 
+(* What the automaton plus the keyword table find (ahocorasick_holder.go GetEntries, be_container_ac.go
+   Retrieve).  Patterns and content are []rune(...): every byte of a string that is not valid UTF-8 reads as
+   U+FFFD.  A matched pattern is looked up in the table under string(term.Word), the UTF-8 spelling of the
+   runes -- which is the stored key only if the keyword was valid UTF-8.  So a keyword holding an invalid byte
+   is never found, and a valid one is searched in the rune reading of the text. *)
+Definition rune_of (c : N) : N := if (c <? 1114112)%N then c else 65533%N.
+Definition runes (t : text) : text := map rune_of t.
+Definition kw_found (k t : text) : bool := valid_text k && substring k (runes t).
+
 Definition nonempty_lists (ls : list (list N)) : list (list N) :=
   filter (fun l => match l with [] => false | _ => true end) ls.
 
@@ -162,7 +171,7 @@ Definition get_entries (fd : fdesc) (fid : N) (h : holder) (v : gval) : pres (li
     | _ => pbind (ac_query_text [32%N] v) (fun t =>
              match t with
              | [] => POk []
-             | _ => POk (nonempty_lists (flat_map (fun kv => if substring (fst kv) t then [snd kv] else []) vals))
+             | _ => POk (nonempty_lists (flat_map (fun kv => if kw_found (fst kv) t then [snd kv] else []) vals))
              end)
     end
   | HRange kv pcs =>
